@@ -128,6 +128,20 @@ func (m *bsim) moreOutputs(ctx context.Context, moduleSet bufmodule.ModuleSet, i
 	}
 	res.outputs["breaking"] = breakingOut
 
+	// a dependency pinned at several commits: the newest must win whatever the listing order;
+	// executed several times because the selection walks a Go map
+	for k := 0; k < 4; k++ {
+		remote, err := m.remoteOutput(ctx)
+		if err != nil {
+			return fmt.Errorf("remote pins: %w", err)
+		}
+		if prev, ok := res.outputs["remote-pins"]; ok && prev != remote {
+			res.outputs["remote-pins"] = prev + "\n--- differs within one execution ---\n" + remote
+			break
+		}
+		res.outputs["remote-pins"] = remote
+	}
+
 	// format
 	formatted, err := bufformat.FormatModuleSet(ctx, moduleSet)
 	if err != nil {
